@@ -132,6 +132,13 @@ func (s *spec) Build(w *engine.World) (sdk.Context, engine.Model) {
 	g, ctx2 := tssh.SetupCurrentGroup(w, ctx, s.cfg.N, uint64(s.cfg.T), 1)
 	ctx = ctx2
 	s.g = g
+	// Bob is the payer that cannot afford a signing: balance = fee*t - 1
+	bobBal := bal(w, ctx, bandtesting.Bob.Address)
+	keep := s.cfg.FeePerSigner*int64(s.cfg.T) - 1
+	if keep < 0 {
+		keep = 0
+	}
+	tssh.Must(w.Tx(ctx, 0, banktypes.NewMsgSend(bandtesting.Bob.Address, bandtesting.Carol.Address, sdk.NewCoins(sdk.NewInt64Coin("uband", bobBal-keep)))), "drain bob")
 	m := &model{Used: map[string]bool{}}
 	for i := 0; i < s.cfg.N; i++ {
 		m.Queues = append(m.Queues, nil)
@@ -177,11 +184,14 @@ func (s *spec) Enabled(w *engine.World, ctx sdk.Context, mm engine.Model, depth 
 		}
 	}
 	if m.Reqs < s.cfg.MaxReq {
-		for _, k := range []string{"req", "reqlow", "reqgov", "reqfail"} {
+		for _, k := range []string{"req", "reqlow", "reqgov", "reqfail", "reqpoor"} {
 			if has(ev, k) {
 				out = append(out, k)
 			}
 		}
+	}
+	if has(ev, "feechg") {
+		out = append(out, "feechg")
 	}
 	if has(ev, "sig") {
 		for _, sg := range m.Sigs {
@@ -289,8 +299,18 @@ func (s *spec) Step(w *engine.World, ctx sdk.Context, mm engine.Model, ev string
 	tk, bk := w.App.TSSKeeper, w.App.BandtssKeeper
 	g := s.g
 	reqAddr := requester().Address
-	fee := s.cfg.FeePerSigner
+	fee := bk.GetParams(ctx).FeePerSigner.AmountOf("uband").Int64() // parameter value in force (configuration, given)
 	switch parts[0] {
+	case "feechg":
+		// governance changes fee_per_signer while signings are in flight
+		bp := bk.GetParams(ctx)
+		nf := s.cfg.FeePerSigner + 5
+		if fee != s.cfg.FeePerSigner {
+			nf = s.cfg.FeePerSigner
+		}
+		bp.FeePerSigner = sdk.NewCoins(sdk.NewInt64Coin("uband", nf))
+		res := w.Tx(ctx, 0, bandtsstypes.NewMsgUpdateParams(tssh.Authority.String(), bp))
+		st.Outcome = "feechg:" + res.ErrName()
 	case "de":
 		i, _ := strconv.Atoi(parts[1])
 		cnt, _ := strconv.ParseUint(parts[2], 10, 64)
@@ -324,7 +344,7 @@ func (s *spec) Step(w *engine.World, ctx sdk.Context, mm engine.Model, ev string
 		if res.OK() {
 			m.Active[i] = true
 		}
-	case "req", "reqlow", "reqgov", "reqfail":
+	case "req", "reqlow", "reqgov", "reqfail", "reqpoor":
 		m.Reqs++
 		content := tsstypes.NewTextSignatureOrder([]byte(fmt.Sprintf("msg-%d", m.Reqs)))
 		total := fee * int64(s.cfg.T)
@@ -335,6 +355,8 @@ func (s *spec) Step(w *engine.World, ctx sdk.Context, mm engine.Model, ev string
 			limit = total - 1
 		case "reqgov":
 			sender = tssh.Authority
+		case "reqpoor":
+			sender = bandtesting.Bob.Address // holds exactly total-1 uband (see Build)
 		}
 		msg, err := bandtsstypes.NewMsgRequestSignature(content, sdk.NewCoins(sdk.NewInt64Coin("uband", limit)), sender.String())
 		if err != nil {
@@ -350,6 +372,10 @@ func (s *spec) Step(w *engine.World, ctx sdk.Context, mm engine.Model, ev string
 		res := w.Tx(ctx, 0, msgs...)
 		st.Outcome = parts[0] + ":" + res.ErrName()
 		if res.OK() {
+			if parts[0] == "reqpoor" && fee > 0 {
+				st.Violate("C13/fee-charged-beyond-balance", "payer with balance below the fee was served")
+				return ctx, st
+			}
 			if parts[0] == "reqlow" && fee > 0 {
 				st.Violate("C13/fee-above-limit-accepted", "signing fee %d accepted with limit %d", total, limit)
 				return ctx, st
@@ -381,6 +407,14 @@ func (s *spec) Step(w *engine.World, ctx sdk.Context, mm engine.Model, ev string
 			}
 			if len(elig) < s.cfg.T {
 				st.Saw("req-rejected:too-few-eligible")
+			}
+			// the statement fixes the price: a request whose limit and balance cover exactly
+			// fee_per_signer x threshold must not be refused for fee reasons
+			if parts[0] == "req" && (res.ErrName() == "bandtss/3" || res.ErrName() == "sdk/5") {
+				st.Violate("C13/affordable-signing-refused-for-fee", "limit = balance-covered fee_per_signer(%d) x threshold(%d) = %d refused: %v", fee, s.cfg.T, total, res.Err)
+			}
+			if parts[0] == "reqgov" && (res.ErrName() == "bandtss/3" || res.ErrName() == "sdk/5") {
+				st.Violate("C13/governance-request-charged", "authority request refused for fee reasons: %v", res.Err)
 			}
 		}
 	case "sig":
@@ -621,6 +655,13 @@ func (s *spec) Step(w *engine.World, ctx sdk.Context, mm engine.Model, ev string
 	}
 	if got := bal(w, ctx, reqAddr); got != 1_000_000-m.Spent {
 		st.Violate("C13/requester-balance", "requester balance %d, expected %d after %s", got, 1_000_000-m.Spent, ev)
+	}
+	poor := s.cfg.FeePerSigner*int64(s.cfg.T) - 1
+	if poor < 0 {
+		poor = 0
+	}
+	if got := bal(w, ctx, bandtesting.Bob.Address); got != poor {
+		st.Violate("C13/rejected-payer-balance-changed", "payer that cannot afford the fee has %d, expected %d after %s", got, poor, ev)
 	}
 	return ctx, st
 }
